@@ -43,6 +43,11 @@ pub fn to_ext(m: Option<M>, y: u32) -> u32 {
 // ------------------------------------------------------------------------------------------------
 // scripted backend
 
+thread_local! {
+    /// called from Backend::destroy(), i.e. in the middle of Vfs::umount
+    static DESTROY_HOOK: std::cell::RefCell<Option<Box<dyn Fn(usize)>>> = std::cell::RefCell::new(None);
+}
+
 pub struct Backend {
     pub inst: usize,
     pub root: u64,
@@ -122,6 +127,12 @@ impl FileSystem for Backend {
     }
     fn destroy(&self) {
         self.log.lock().unwrap().push(format!("i{}:destroy", self.inst));
+        // a client request arriving while the umount is in flight (see World::apply)
+        DESTROY_HOOK.with(|h| {
+            if let Some(f) = h.borrow().as_ref() {
+                f(self.inst);
+            }
+        });
     }
     fn lookup(&self, ctx: &Context, parent: u64, name: &CStr) -> io::Result<Entry> {
         self.say(format!("lookup ino={} {}", parent, Self::c(ctx)));
@@ -415,8 +426,43 @@ impl World {
                 let (spelled, p, extra) = path_of(path);
                 // a spelling through another directory only resolves while that pseudo directory exists
                 let resolvable = extra.iter().all(|e| self.pseudo.contains_key(*e));
+                // while the backend is being torn down (inside its destroy()) a client walks to the mount path: it must not
+                // be handed the root of the filesystem that is going away
+                let walked: Arc<Mutex<Option<Result<u64, i32>>>> = Arc::new(Mutex::new(None));
+                {
+                    let vfs = self.vfs.clone();
+                    let w2 = walked.clone();
+                    let comps: Vec<String> = p.split('/').filter(|c| !c.is_empty()).map(|c| c.to_string()).collect();
+                    DESTROY_HOOK.with(|h| {
+                        *h.borrow_mut() = Some(Box::new(move |_inst| {
+                            let ctx = Context::new();
+                            let mut cur = 1u64;
+                            let mut res: Result<u64, i32> = Ok(1);
+                            for c in &comps {
+                                match vfs.lookup(&ctx, cur.into(), &std::ffi::CString::new(c.as_str()).unwrap()) {
+                                    Ok(e) => {
+                                        cur = e.inode;
+                                        res = Ok(e.inode);
+                                    }
+                                    Err(e) => {
+                                        res = Err(e.raw_os_error().unwrap_or(-1));
+                                        break;
+                                    }
+                                }
+                            }
+                            *w2.lock().unwrap() = Some(res);
+                        }));
+                    });
+                }
+                let dying = self.mounts.get(p).map(|i| self.insts[*i].slot);
                 let res = std::panic::catch_unwind(std::panic::AssertUnwindSafe(|| self.vfs.umount(spelled)));
+                DESTROY_HOOK.with(|h| *h.borrow_mut() = None);
                 self.take_log();
+                if let (Some(slot), Some(Ok(ino))) = (dying, *walked.lock().unwrap()) {
+                    if p != "/" && ino >> 56 == slot as u64 {
+                        self.bad("umount-in-flight/mount-point-still-crossed", format!("while the backend at {} (slot {}) was being destroyed, a walk to {} was handed its root {:#x}", p, slot, p, ino));
+                    }
+                }
                 match res {
                     Err(_) => self.bad("umount-panic", format!("umount {} panicked", p)),
                     Ok(r) => {
@@ -1267,14 +1313,15 @@ fn transcript(vfs: &Arc<Vfs>, log: &Arc<Mutex<Vec<String>>>, cl: &mut Client, ol
                 n,
                 match r {
                     Ok(v) => {
-                        let mut names: Vec<String> = v
+                        let names: Vec<String> = v
                             .iter()
                             .map(|d| {
                                 let e = d.entry.as_ref().map(|b| crate::client::parse_entry(b));
-                                format!("{}={:#x}{}", String::from_utf8_lossy(&d.name), d.ino, e.map(|e| format!("/{:#x}/{}", e.nodeid, e.attr.uid)).unwrap_or_default())
+                                // the order of the entries and their continuation offsets are part of what a client sees
+                                // (a listing may be continued after the restore)
+                                format!("{}={:#x}@{}{}", String::from_utf8_lossy(&d.name), d.ino, d.off, e.map(|e| format!("/{:#x}/{}", e.nodeid, e.attr.uid)).unwrap_or_default())
                             })
                             .collect();
-                        names.sort();
                         names.join(",")
                     }
                     Err(e) => format!("errno{}", e),
@@ -1597,6 +1644,29 @@ pub fn c19(args: &Args) -> Report {
                     }
                     if rep.over_budget() {
                         break;
+                    }
+                }
+            }
+        }
+    }
+    // targeted longer histories, in every tier: a pseudo directory with three and four children from which one that is
+    // not the last is evicted (remove_pseudo_root), then re-created
+    {
+        let m = |p: usize| PAct::Mount { path: p, map: 0 };
+        let targeted: Vec<Vec<PAct>> = vec![
+            vec![m(1), m(3), m(4), PAct::Umount { path: 1 }],
+            vec![m(1), m(3), m(4), PAct::Umount { path: 3 }, m(1)],
+            vec![m(4), m(1), m(3), PAct::Umount { path: 4 }, m(4)],
+            vec![m(2), m(3), m(5), PAct::Umount { path: 2 }, PAct::Umount { path: 3 }],
+        ];
+        for rpr in [false, true] {
+            for g in [None, Some((0u32, 1000u32, 10u32))] {
+                for v1 in [false, true] {
+                    for t in &targeted {
+                        if rep.mine(idx) {
+                            c19_seq(&mut rep, &mut cl, rpr, g, t, v1);
+                        }
+                        idx += 1;
                     }
                 }
             }
